@@ -265,6 +265,14 @@ def run_case(desc):
             os.chdir(tmp)
             path = "value.dat" if pathkind == "str" else pathlib.Path("value.dat")
             bare = True
+        elif mount == "direct" and desc["seed"] % 9 == 1:
+            # a relative path through a directory that is literally called "~" (no shell is involved: it is not the home directory)
+            old_cwd = os.getcwd()
+            os.chdir(tmp)
+            os.mkdir("~")
+            base = os.path.join(tmp, "~", "value.dat")
+            path = "~/value.dat" if pathkind == "str" else pathlib.Path("~/value.dat")
+            bare = True
         if mount == "direct":
             store = make(path)
         elif mount == "testmount":
@@ -352,6 +360,22 @@ def run_case(desc):
             elif prev is not None and mt < prev:
                 bad = f"modified time decreased across successive writes: {prev} -> {mt}"
             prev = mt
+        if bad is None and isinstance(value, (list, dict)) and value:
+            # what read() hands out is the caller's to change: a second read still returns what was WRITTEN
+            import copy as _copy
+
+            expected = _copy.deepcopy(value) if kind == "json" else value
+            got1 = store.read()
+            try:
+                if isinstance(got1, list):
+                    got1.append("changed by the caller")
+                elif isinstance(got1, dict):
+                    got1["changed by the caller"] = 1
+            except Exception:
+                pass
+            got2 = store.read()
+            if not deep_eq(got2, expected):
+                bad = f"a second read() returned {_short(got2)} after the caller changed the object the first read() had returned; written was {_short(expected)}"
         if bad is None and mount != "direct":
             # several threads read ONE mounted store object at the same time (as two plan nodes sharing a store do with max_workers > 1):
             # all of them are made to overlap between "copied to local" and "local file read"; each must get the value
